@@ -471,6 +471,49 @@ def _cursor_of(args):
     return None
 
 
+def _exit_tests(loop):
+    """The loop condition plus the tests of `if ...: break/return` statements directly in its body."""
+    out = [loop.test]
+    for st in loop.body:
+        if isinstance(st, ast.If) and st.body and isinstance(st.body[-1], (ast.Break, ast.Return)):
+            out.append(st.test)
+    return out
+
+
+def is_cursor_loop(loop, fnode):
+    """A loop that decides whether to go on by looking at the line cursor: an exit test calls .peek() or
+    reads a name that the function binds to the result of .peek()."""
+    peeked = set()
+    for n in ast.walk(fnode):
+        if isinstance(n, ast.Assign) and isinstance(n.value, ast.Call) and isinstance(n.value.func, ast.Attribute) \
+                and n.value.func.attr == 'peek':
+            for t in n.targets:
+                if isinstance(t, ast.Name):
+                    peeked.add(t.id)
+    for t in _exit_tests(loop):
+        for n in ast.walk(t):
+            if isinstance(n, ast.Call) and isinstance(n.func, ast.Attribute) and n.func.attr == 'peek':
+                return True
+            if isinstance(n, ast.Name) and n.id in peeked:
+                return True
+    return False
+
+
+def cursor_probe(model):
+    fw = model.cls('block_tokenizer.FileWrapper')
+
+    def probe(interp, frame, loop):
+        fnode = frame.func.node if getattr(frame, 'func', None) is not None else None
+        if fnode is None or not is_cursor_loop(loop, fnode):
+            return None
+        snap = []
+        for name, v in sorted(frame.locals.items()):
+            if isinstance(v, Obj) and isinstance(v.cls, ClassInfo) and v.cls.is_subclass_of(fw):
+                snap.append((name,) + tuple(sorted((k, x) for k, x in v.attrs.items() if isinstance(x, int) and not isinstance(x, bool))))
+        return tuple(snap) or None
+    return probe
+
+
 def explore_block_class(model, cls, facts, nlines=2, max_paths=4000):
     """start(L0) truthy -> read(FileWrapper([L0..])) -> cls(result)."""
     fw = model.cls('block_tokenizer.FileWrapper')
@@ -478,6 +521,7 @@ def explore_block_class(model, cls, facts, nlines=2, max_paths=4000):
     def run(oracle):
         it = Interp(model, loop_bound=1, while_bound=2)
         it.reset_run(oracle)
+        it.loop_probe = cursor_probe(model)
         log = []
         _install_common_hooks(model, it, facts, log)
         lines = [AbsStr(label='line%d' % i) for i in range(nlines)]
